@@ -8,5 +8,5 @@ Extraction "../ocaml/extracted/model.ml"
   SigCore.run_program SigCore.trace
   AdaptorModel.refs AdaptorModel.visited AdaptorModel.call AdaptorModel.call_doc AdaptorModel.wt AdaptorModel.wf_values
   AdaptorModel.table_ok AdaptorModel.slices_ok AdaptorModel.modes_ok AdaptorModel.fields_ok
-  TypeModel.binds TypeModel.result_ok TypeModel.converts TypeModel.direct_ok TypeModel.lib_accepts TypeModel.all_ptypes TypeModel.all_argexprs TypeModel.all_bases
+  TypeModel.binds TypeModel.explicit_ok TypeModel.result_ok TypeModel.converts TypeModel.direct_ok TypeModel.lib_accepts TypeModel.all_ptypes TypeModel.all_argexprs TypeModel.all_bases
   Tables.gen_visit_table Tables.gen_hop_modes Tables.gen_slices Tables.gen_members.
